@@ -16,8 +16,9 @@ vars == <<S, hist, last>>
 RInit(id) == CASE id = 0 -> [lo |-> <<1, 2>>,    li |-> <<1, 2>>, pre |-> 0]
                [] id = 1 -> [lo |-> <<1, 2>>,    li |-> <<1, 2>>, pre |-> 1]    \* parked on the host
                [] id = 2 -> [lo |-> <<1, 2>>,    li |-> <<1, 2>>, pre |-> 2]    \* inside the subgraph
-               [] id = 3 -> [lo |-> <<2, 1, 3>>, li |-> <<1>>,    pre |-> 2]    \* parked on the host, in the middle
+               [] id = 3 -> [lo |-> <<2, 1>>,    li |-> <<1>>,    pre |-> 2]    \* parked on the host, which is last
                [] id = 4 -> [lo |-> <<2, 1>>,    li |-> <<>>,     pre |-> 0]    \* empty subgraph
+               [] id = 5 -> [lo |-> <<2, 1, 3>>, li |-> <<1, 3>>, pre |-> 2]    \* (3 elements) parked on the host, in the middle
 
 A(op, g, a, es) == [op |-> op, g |-> g, a |-> a, es |-> es, c |-> 1, es2 |-> <<>>]
 
